@@ -451,7 +451,7 @@ pub fn run_decode_engine(ctx: &Ctx, prop: &'static str) -> Report {
     let nums: Vec<u16> = feature_numbers().into_iter().collect();
     let td = testdata_frames();
     let thorough = ctx.tier.thorough();
-    let cap2: u64 = if thorough { 400_000 } else { 0 };
+    let cap2: u64 = if thorough { 400_000 } else { 3_000 };
     let mut jobs: Vec<(u16, String, Vec<u8>)> = vec![];
     for &n in &nums {
         for (name, b) in bases_for(n, &td, thorough) {
